@@ -4,6 +4,7 @@ import (
 	"bytes"
 	"encoding/hex"
 	"fmt"
+	"math"
 	"runtime"
 	"sync"
 	"sync/atomic"
@@ -23,6 +24,7 @@ type execResult struct {
 	Ops      int       `json:"ops"`
 	Outcomes []string  `json:"outcomes,omitempty"` // per op "<err>:x<hex>" (recorded for the magic codec only)
 	MaxAlloc uint64    `json:"max_alloc"`          // largest allocation volume of one failing Decode
+	Declared int       `json:"declared"`           // failing decodes that allocated the size their header announced (within the format limit)
 	Errors   int       `json:"errors"`             // failing decodes that returned an error
 	Accepted int       `json:"accepted"`           // hostile streams that decoded without error (same as a fresh instance)
 }
@@ -274,9 +276,14 @@ func (r *runner) hostile(ci *codecInfo, st *opState, o *op, i int) {
 			r.res.MaxAlloc = a
 		}
 		r.mu.Unlock()
-		if a > allocBound(len(src)) {
-			r.fail(i, allocClass(ci.name, src), "%s.Decode of a malformed input (%s, %d bytes: %s) allocated %d MiB (tolerated: 64 MiB + 1100 x input); returned err=%v",
-				ci.name, o.Bad.Mode, len(src), hx(src), a>>20, err)
+		if a > allocBound(len(src)) && a <= allocTolerated(ci.name, src) {
+			r.mu.Lock()
+			r.res.Declared++
+			r.mu.Unlock()
+		}
+		if a > allocTolerated(ci.name, src) {
+			r.fail(i, allocClass(ci.name, src), "%s.Decode of a malformed input (%s, %d bytes: %s) allocated %d MiB (tolerated: %d MiB); returned err=%v",
+				ci.name, o.Bad.Mode, len(src), hx(src), a>>20, allocTolerated(ci.name, src)>>20, err)
 			return
 		}
 	}
@@ -308,10 +315,35 @@ func (r *runner) hostile(ci *codecInfo, st *opState, o *op, i int) {
 	}
 }
 
+// formatLimit: the largest decoded size a stream header of the format can
+// announce and the codec accepts (snappy: 32-bit preamble; zstd: the decoder is
+// built with WithDecoderMaxMemory(MaxInt32), the largest parquet page).
+func formatLimit(codec string) uint64 {
+	switch codec {
+	case "snappy":
+		return 1<<32 - 1
+	case "zstd":
+		return math.MaxInt32
+	}
+	return 0
+}
+
+// allocTolerated: the allocation volume accepted for one Decode of a failing
+// input: 64 MiB + 1100 x input, or the decoded size announced by the stream
+// header when it is within the format's own hard limit (such a call allocates
+// a bounded amount and returns an error: recorded as a note, not a violation).
+func allocTolerated(codec string, src []byte) uint64 {
+	tol := allocBound(len(src))
+	if d := declaredSize(codec, src); d <= formatLimit(codec) && d+64<<20 > tol {
+		tol = d + 64<<20
+	}
+	return tol
+}
+
 // allocClass: an allocation that follows a size announced by the stream header
-// is told apart from a runaway growth loop.
+// beyond the format's limit is told apart from a runaway growth loop.
 func allocClass(codec string, src []byte) string {
-	if d := declaredSize(codec, src); d > allocBound(len(src))/2 {
+	if d := declaredSize(codec, src); d > formatLimit(codec) && d > allocBound(len(src)) {
 		return "alloc-declared-size-" + codec
 	}
 	return "unbounded-allocation"
